@@ -733,6 +733,8 @@ func exec(line string, st *hx.Stats) string {
 		return execSharedStress(f)
 	case "shc":
 		return execSharedCancel(f)
+	case "fi":
+		return execFanIn(f)
 	case "shr":
 		// shr <script> <plan> <rounds>: the stress case repeated; prints the first deviating round's output (same format as
 		// shs) or the last round's.  Used to reproduce the rare stale-fetch interleaving of fetchAndWait.
@@ -1026,6 +1028,11 @@ func gen(r *hx.Rand, n int, tier string, emit func(string), st *hx.Stats) {
 				calls = e + 1 // e items and the call that reports the error
 			}
 			emit(fmt.Sprintf("shc %s %d %d", script, 1+c.Intn(calls), c.Intn(2)))
+			continue
+		}
+		// fan-in of iterator channels, with error-only messages among the inputs
+		if c.Intn(25) == 0 {
+			emit(genFanIn(c, st))
 			continue
 		}
 		switch k := c.Intn(20); {
